@@ -46,6 +46,7 @@ struct Case {
   std::vector<SessRec> sess;
   std::vector<Sub> subs;
   int events_connected = 0, events_failed = 0;
+  unsigned same_mids = 0;               // 0: no; 1..3: the other sessions' message id counters start at session 0's + (same_mids - 1)
   uint64_t connected_t = UINT64_MAX;   // when libcoap declared the session connected (peer's CSM, or its own CSM time-out)
 } *G = nullptr;
 
@@ -102,6 +103,7 @@ int verif_case(const uint8_t *tape, size_t tlen, Info *info) {
   coap_register_nack_handler(ctx, nack_handler);
   coap_register_response_handler(ctx, resp_handler);
   coap_register_event_handler(ctx, event_handler);
+  cs.same_mids = tlen > 0 && tape[tlen - 1] < 100 ? 1 + tape[tlen - 1] % 3 : 0;
   int v = tcp ? run_tcp(t, info, cs, w, ctx) : run_udp(t, info, cs, w, ctx);
   w.remove_context(ctx);
   coap_free_context(ctx);
@@ -137,6 +139,8 @@ int run_udp(Tape &t, Info *info, Case &cs, World &w, coap_context_t *ctx) {
     if (!sr.s) return OUT_OF_DOMAIN;
     sr.nstart = (unsigned)t.pick({4, 3, 2, 1}) + 1;
     coap_session_set_nstart(sr.s, (uint16_t)sr.nstart);
+    // (last tape byte) the sessions' message id counters coincide: each session draws its first id at random, equal ids in one send queue are legal
+    if (i > 0 && cs.same_mids) { sr.s->tx_mid = (uint16_t)(cs.sess[0].s->tx_mid + (cs.same_mids - 1)); info->label("sessions-with-coinciding-message-ids"); }
     coap_session_set_max_retransmit(sr.s, (uint16_t)(t.pick({2, 2, 1}) + 1));
     sr.nstart = coap_session_get_nstart(sr.s);
     cs.sess.push_back(sr);
